@@ -301,6 +301,7 @@ func c07StepGen(role string) *rapid.Generator[Step] {
 			ops = append(ops, w("rt.initerror", 4)...)
 			ops = append(ops, "rt.restorenext", "rt.restoreerror", "oversize", "rt.next.async", "rt.next.async")
 			ops = append(ops, w("halfsent", 5)...)
+			ops = append(ops, w("cutsent", 5)...)
 			ops = append(ops, w("ext.register", 4)...)
 			ops = append(ops, w("ext.next", 3)...)
 			ops = append(ops, "ext.initerror", "ext.exiterror")
@@ -335,6 +336,14 @@ func c07StepGen(role string) *rapid.Generator[Step] {
 			st := Step{Op: rapid.SampledFrom([]string{"rt.response", "rt.response", "rt.error", "rt.initerror"}).Draw(t, "halfOp"), ID: "cur", BodyMode: "transform", SlowBody: "never", ErrType: "Runtime.Half"}
 			if st.Op == "rt.initerror" {
 				st.ID, st.BodyMode, st.Lit = "", "lit", `{"errorMessage":"half an init error","errorType":"X"}`
+			}
+			return st
+		case "cutsent":
+			// a submission broken off half way: the connection goes away in the middle of the upload, the process lives on
+			st := Step{Op: rapid.SampledFrom([]string{"rt.response", "rt.response", "rt.error", "rt.initerror"}).Draw(t, "cutOp"), ID: "cur", BodyMode: "transform",
+				SlowBody: rapid.SampledFrom([]string{"cut", "cut", "cutchunked"}).Draw(t, "cutHow"), ErrType: "Runtime.Cut"}
+			if st.Op == "rt.initerror" {
+				st.ID, st.BodyMode, st.Lit = "", "lit", `{"errorMessage":"an init error broken off","errorType":"X"}`
 			}
 			return st
 		case "rt.next.async":
@@ -444,6 +453,10 @@ func c07Fixed() []c07Case {
 		{NExt: 0, T: 300, Stages: []c07Stage{{Runtime: []Step{{Op: "rt.next"}, {Op: "rt.response", ID: "cur", BodyMode: "transform", SlowBody: "never"}}}}},
 		{NExt: 1, Subs: [][]string{{"INVOKE", "SHUTDOWN"}}, T: 300, Stages: []c07Stage{{Runtime: []Step{{Op: "rt.next"}, {Op: "rt.error", ID: "cur", BodyMode: "transform", ErrType: "Function.Half", SlowBody: "never"}},
 			Exts: [][]Step{{{Op: "ext.register", Events: []string{"INVOKE", "SHUTDOWN"}}, {Op: "ext.next"}, {Op: "ext.next"}}}, OnTerm: []string{"", ""}}}},
+		// the runtime breaks its upload off half way, lives on and polls again: the caller gets a platform outcome, not an empty success
+		{NExt: 0, T: 300, Stages: []c07Stage{{Runtime: []Step{{Op: "rt.next"}, {Op: "rt.response", ID: "cur", BodyMode: "transform", SlowBody: "cut"}, {Op: "rt.next"}, {Op: "stall"}}}}},
+		{NExt: 1, Subs: [][]string{{"INVOKE"}}, T: 300, Stages: []c07Stage{{Runtime: []Step{{Op: "rt.next"}, {Op: "rt.error", ID: "cur", BodyMode: "transform", ErrType: "Function.Cut", SlowBody: "cutchunked"}, {Op: "rt.next"}, {Op: "stall"}},
+			Exts: [][]Step{{{Op: "ext.register", Events: []string{"INVOKE"}}, {Op: "ext.next"}, {Op: "ext.next"}, {Op: "ext.next"}}}, OnTerm: []string{"", ""}}}},
 		{NExt: 0, T: 300, ExitDelayMs: map[string]int{"runtime": 2300}, Stages: []c07Stage{{Runtime: []Step{{Op: "rt.next"}, {Op: "stall"}}}}},
 		{NExt: 0, T: 300, Stages: []c07Stage{{Runtime: []Step{{Op: "rt.next"}, {Op: "rt.response", ID: "garbage", BodyMode: "lit", Lit: "x"}, {Op: "rt.next", Async: true, Tag: "dup"}, {Op: "rt.response", ID: "cur", BodyMode: "transform"}, {Op: "exit", Code: 0}}}}},
 	}
